@@ -124,13 +124,21 @@ func runH2C(raw json.RawMessage, seed int64) (res Result) {
 	if gx := signWith(x, out); !bytes.Equal(gx, H.Mul(x).Compress()) {
 		add("SignIsCanonical", fmt.Sprintf("Sign under a random key on expander output %x returned %x, sk*H is %x", out, gx, H.Mul(x).Compress()))
 	}
-	// verification under that key: sk*H is the one accepted string.  When H is the identity (opposite field elements: only a
-	// crafted hasher gets there) sk*H is the identity signature and the two clauses of C01 ("exactly sk*H(m)" / "the identity
-	// signature is rejected") contradict each other: that corner is executed but not judged.
+	// verification under that key: sk*H is the one accepted string, "which is exactly what Sign returns".  When H is the identity
+	// (opposite field elements: only a crafted hasher gets there) that string is the identity encoding: it is then not one of the
+	// "other inputs" of C01's second sentence, so Sign's output must verify there as everywhere else (an earlier version of this
+	// check demanded its rejection: a false alarm, DESIGN 9.3), and any other string must not.
 	pk := w.SK(x).PublicKey()
 	ok, err := pk.Verify(H.Mul(x).Compress(), []byte("m"), &fixedHasher{out: out})
-	if !H.Inf && (err != nil || !ok) {
-		add("AcceptanceSet", fmt.Sprintf("Verify of sk*H for expander output %x = (%v, %v)", out, ok, err))
+	if err != nil || !ok {
+		add("AcceptanceSet", fmt.Sprintf("Verify of sk*H (what Sign returns) for expander output %x = (%v, %v); the hash point is the identity: %v", out, ok, err, H.Inf))
+	}
+	if H.Inf {
+		other := w.HashPoint("kmac", "m1").Compress()
+		if ok, err := pk.Verify(other, []byte("m"), &fixedHasher{out: out}); ok || err != nil {
+			add("AcceptanceSet", fmt.Sprintf("the hash point is the identity, yet Verify of a non-identity point = (%v, %v)", ok, err))
+		}
+		res.Evals++
 	}
 	return
 }
